@@ -138,8 +138,8 @@ func (a *c13Actor) Receive(ctx *ReceiveContext) {
 
 type c13Nop struct{}
 
-func (c13Nop) PreStart(*Context) error  { return nil }
-func (c13Nop) PostStop(*Context) error  { return nil }
+func (c13Nop) PreStart(*Context) error { return nil }
+func (c13Nop) PostStop(*Context) error { return nil }
 func (c13Nop) Receive(*ReceiveContext) {}
 
 // ---- generator ---------------------------------------------------------------
@@ -338,7 +338,8 @@ func (d *c13Driver) next() (c13Event, bool) {
 					}
 				}
 				sort.Strings(missing)
-				d.x.Failf("stash-message-never-delivered", "the actor is idle with an empty mailbox, yet %d message(s) whose send had completed were never delivered (first: %s) and %d released message(s) were never re-delivered; stash=%v", len(missing), first(missing), d.pendingRedeliveries(), d.stash)
+				d.x.Logf("stash-message-never-delivered: "+"the actor is idle with an empty mailbox, yet %d message(s) whose send had completed were never delivered (first: %s) and %d released message(s) were never re-delivered; stash=%v", len(missing), first(missing), d.pendingRedeliveries(), d.stash)
+				d.x.Failf("stash-message-never-delivered", "the actor is idle with an empty mailbox, yet messages whose send had completed (or that were released from the stash) were never delivered (details: last line of the history)")
 			}
 			if time.Now().After(deadline) {
 				d.x.Class("timeout_inconclusive")
@@ -389,24 +390,28 @@ func (d *c13Driver) apply(ev c13Event) {
 	id := ev.Msg.ID
 	want, okMsg := d.msgs[id]
 	if !okMsg || want != ev.Msg {
-		x.Failf("stash-foreign-message", "delivered message %s is not the object that was sent", d.describe(id))
+		x.Logf("stash-foreign-message: "+"delivered message %s is not the object that was sent", d.describe(id))
+		x.Failf("stash-foreign-message", "a delivered message is not the object that was sent (details: last line of the history)")
 	}
 	if ev.Self != d.pid {
-		x.Failf("stash-wrong-self", "%s delivered with Self()=%v", d.describe(id), ev.Self)
+		x.Logf("stash-wrong-self: "+"%s delivered with Self()=%v", d.describe(id), ev.Self)
+		x.Failf("stash-wrong-self", "a message was delivered with a wrong Self() (details: last line of the history)")
 	}
 	if ev.Sender != d.expSender[id] {
 		fp := "stash-sender-changed"
 		if d.deliveries[id] == 0 {
 			fp = "delivery-sender-wrong"
 		}
-		x.Failf(fp, "%s (delivery %d) arrived with Sender()=%v, it was sent by %v", d.describe(id), d.deliveries[id]+1, c13Name(ev.Sender), c13Name(d.expSender[id]))
+		x.Logf(fp+": %s (delivery %d) arrived with Sender()=%v, it was sent by %v", d.describe(id), d.deliveries[id]+1, c13Name(ev.Sender), c13Name(d.expSender[id]))
+		x.Failf(fp, "a message arrived with a Sender() different from the PID that sent it (details: last line of the history)")
 	}
 	if d.deliveries[id] == 0 {
 		// first delivery: everything released before this message was sent must already be here
 		d.firstPending--
 		for _, b := range d.batches {
 			if b.createdAt < d.sentAfter[id] && len(b.ids) > 0 {
-				x.Failf("stash-redelivery-missing", "%s was sent after a handler had been seen to release %v from the stash, yet it is delivered before them (released messages lost, or overtaken by a newer message)", d.describe(id), b.ids)
+				x.Logf("stash-redelivery-missing: "+"%s was sent after a handler had been seen to release %v from the stash, yet it is delivered before them (released messages lost, or overtaken by a newer message)", d.describe(id), b.ids)
+				x.Failf("stash-redelivery-missing", "a message sent after a handler had been seen to release stashed messages is delivered before them (released messages lost, or overtaken by a newer message) (details: last line of the history)")
 			}
 		}
 	} else {
@@ -417,7 +422,8 @@ func (d *c13Driver) apply(ev c13Event) {
 					continue
 				}
 				if k != 0 {
-					x.Failf("stash-redelivery-reordered", "m%d re-delivered before %v which were stashed earlier and released by the same UnstashAll", id, b.ids[:k])
+					x.Logf("stash-redelivery-reordered: "+"m%d re-delivered before %v which were stashed earlier and released by the same UnstashAll", id, b.ids[:k])
+					x.Failf("stash-redelivery-reordered", "messages released by one UnstashAll are re-delivered in an order different from the order in which they were stashed (details: last line of the history)")
 				}
 				b.ids = b.ids[1:]
 				if len(b.ids) == 0 {
@@ -431,12 +437,14 @@ func (d *c13Driver) apply(ev c13Event) {
 			}
 		}
 		if !found {
-			x.Failf("stash-duplicate-delivery", "m%d delivered again (delivery %d) although it is not among the released messages; stash=%v", id, d.deliveries[id]+1, d.stash)
+			x.Logf("stash-duplicate-delivery: "+"m%d delivered again (delivery %d) although it is not among the released messages; stash=%v", id, d.deliveries[id]+1, d.stash)
+			x.Failf("stash-duplicate-delivery", "a message is delivered again although it was not released from the stash (duplicate) (details: last line of the history)")
 		}
 	}
 	d.deliveries[id]++
 	if ev.Delivery != d.deliveries[id] {
-		x.Failf("stash-delivery-count", "actor counts delivery %d of %s, driver counts %d", ev.Delivery, d.describe(id), d.deliveries[id])
+		x.Logf("stash-delivery-count: "+"actor counts delivery %d of %s, driver counts %d", ev.Delivery, d.describe(id), d.deliveries[id])
+		x.Failf("stash-delivery-count", "actor and driver disagree on the number of deliveries of a message (details: last line of the history)")
 	}
 	stashedNow := false
 	for _, r := range ev.Ops {
@@ -444,7 +452,8 @@ func (d *c13Driver) apply(ev c13Event) {
 		case c13OpStash:
 			if d.c.Stashing {
 				if r.After != r.Before {
-					x.Failf("stash-error-with-buffer", "Stash() of m%d reported %v although the actor was spawned WithStashing", id, r.After)
+					x.Logf("stash-error-with-buffer: "+"Stash() of m%d reported %v although the actor was spawned WithStashing", id, r.After)
+					x.Failf("stash-error-with-buffer", "Stash() reported an error although the actor was spawned WithStashing (details: last line of the history)")
 				}
 				d.stash = append(d.stash, id)
 				d.stashedTotal++
@@ -452,7 +461,8 @@ func (d *c13Driver) apply(ev c13Event) {
 			} else {
 				x.Class("stash_without_buffer")
 				if r.After == nil || !errors.Is(r.After, gerrors.ErrStashBufferNotSet) {
-					x.Failf("stash-without-buffer-silent", "Stash() of m%d without a stash buffer recorded error %v, want ErrStashBufferNotSet", id, r.After)
+					x.Logf("stash-without-buffer-silent: "+"Stash() of m%d without a stash buffer recorded error %v, want ErrStashBufferNotSet", id, r.After)
+					x.Failf("stash-without-buffer-silent", "Stash() without a stash buffer did not record ErrStashBufferNotSet (message dropped silently) (details: last line of the history)")
 				}
 			}
 		case c13OpUnstash:
@@ -483,7 +493,8 @@ func (d *c13Driver) apply(ev c13Event) {
 			x.Class("ask_message_answered_after_unstash")
 		}
 		if !ev.HasReplyCh {
-			x.Failf("stash-ask-reply-channel-lost", "Ask message m%d came back from the stash without its reply channel", id)
+			x.Logf("stash-ask-reply-channel-lost: "+"Ask message m%d came back from the stash without its reply channel", id)
+			x.Failf("stash-ask-reply-channel-lost", "an Ask message came back from the stash without its reply channel (details: last line of the history)")
 		}
 		if ev.ReplyClosed {
 			if !d.act.neutralize {
@@ -543,7 +554,8 @@ func (d *c13Driver) sendAndAwait(id int) bool {
 
 func (d *c13Driver) checkStashSize(where string) {
 	if got := d.pid.StashSize(); got != uint64(len(d.stash)) {
-		d.x.Failf("stash-size-mismatch", "%s: StashSize()=%d, model holds %d stashed messages %v", where, got, len(d.stash), d.stash)
+		d.x.Logf("stash-size-mismatch: "+"%s: StashSize()=%d, model holds %d stashed messages %v", where, got, len(d.stash), d.stash)
+		d.x.Failf("stash-size-mismatch", "StashSize() differs from the number of messages the model holds in the stash while the actor is idle (details: last line of the history)")
 	}
 }
 
@@ -700,7 +712,8 @@ func c13Exec(x *vfkit.X, c c13Case) {
 	d.checkStashSize("after draining")
 	for i := range c.Msgs {
 		if d.deliveries[i] < 1 {
-			x.Failf("stash-message-lost", "m%d was never delivered", i)
+			x.Logf("stash-message-lost: "+"m%d was never delivered", i)
+			x.Failf("stash-message-lost", "a message was never delivered (details: last line of the history)")
 		}
 	}
 	// every Ask message has been handled and answered
@@ -712,10 +725,12 @@ func c13Exec(x *vfkit.X, c c13Case) {
 					x.Class("timeout_inconclusive")
 					return
 				}
-				x.Failf("stash-ask-error", "Ask(m%d) failed: %v", r.id, r.err)
+				x.Logf("stash-ask-error: "+"Ask(m%d) failed: %v", r.id, r.err)
+				x.Failf("stash-ask-error", "Ask of a message that was finally handled and answered failed (details: last line of the history)")
 			}
 			if got, _ := r.resp.(int); got != r.id {
-				x.Failf("stash-ask-wrong-reply", "Ask(m%d) answered with %v", r.id, r.resp)
+				x.Logf("stash-ask-wrong-reply: "+"Ask(m%d) answered with %v", r.id, r.resp)
+				x.Failf("stash-ask-wrong-reply", "Ask answered with a reply that belongs to another message (details: last line of the history)")
 			}
 		case <-time.After(c13Watchdog):
 			x.Class("timeout_inconclusive")
